@@ -4,11 +4,13 @@
 
 mod checks;
 mod chmod;
+mod corpus;
 mod files;
 mod fmtscan;
 mod fnmatch;
 mod interp;
 mod policy;
+mod scope;
 mod speceval;
 mod sx;
 mod gen;
@@ -37,6 +39,8 @@ fn main() {
     let mut seed: u64 = std::env::var("VERIF_SEED").ok().and_then(|s| s.trim().parse::<i128>().ok()).map(|v| v as u64).unwrap_or(0);
     let mut part = None;
     let mut out = None;
+    let mut trace: Option<String> = None;
+    let mut only: Option<usize> = None;
     let mut pos = vec![];
     let mut i = 1;
     while i < args.len() {
@@ -56,6 +60,14 @@ fn main() {
             "--part" => {
                 i += 1;
                 part = args.get(i).cloned();
+            }
+            "--trace" => {
+                i += 1;
+                trace = args.get(i).cloned();
+            }
+            "--only" => {
+                i += 1;
+                only = args.get(i).and_then(|s| s.parse::<usize>().ok());
             }
             "--out" => {
                 i += 1;
@@ -86,6 +98,12 @@ fn main() {
             let id = pos.first().cloned().unwrap_or_else(|| usage());
             let file = pos.get(1).cloned().unwrap_or_else(|| usage());
             std::process::exit(checks::replay(&id, &file))
+        }
+        "c03-worker" => {
+            let shard: usize = pos.first().and_then(|s| s.parse().ok()).unwrap_or_else(|| usage());
+            let nshards: usize = pos.get(1).and_then(|s| s.parse().ok()).unwrap_or_else(|| usage());
+            let out = out.unwrap_or_else(|| usage());
+            std::process::exit(checks::c03::worker(shard, nshards, seed, tier, &out, trace.as_deref(), only))
         }
         "dump" => {
             let corpus = pos.first().cloned().unwrap_or_else(|| usage());
